@@ -84,39 +84,102 @@ def body(H, case):
 
 # ---- (A) ---------------------------------------------------------------------------------------------
 class Track:
-    """array wrapper that records which outer iteration reads / writes which element"""
+    """array wrapper that records which outer iteration reads / writes which element of which array
+    (`idx` holds, for every element of this view, the flat index into the base array)"""
 
-    def __init__(self, data, name, log):
+    def __init__(self, data, name, log, idx=None):
         self.data, self.name, self.log = data, name, log
+        self.idx = np.arange(int(np.prod(np.shape(data)))).reshape(np.shape(data)) if idx is None else idx
 
-    @property
-    def shape(self):
-        return self.data.shape
-
-    @property
-    def ndim(self):
-        return self.data.ndim
-
-    @property
-    def dtype(self):
-        return getattr(self.data, "dtype", np.dtype(float))
+    shape = property(lambda s: s.data.shape)
+    ndim = property(lambda s: s.data.ndim)
+    dtype = property(lambda s: getattr(s.data, "dtype", np.dtype(float)))
+    size = property(lambda s: s.idx.size)
 
     def __len__(self):
         return len(self.data)
 
+    def _note(self, op, idx):
+        self.log.append((op, self.name, frozenset(int(i) for i in np.asarray(idx).ravel()), self.log.cur))
+
+    def _val(self):
+        self._note("r", self.idx)
+        return self.data
+
     def __getitem__(self, k):
-        if isinstance(k, tuple) and any(isinstance(x, slice) for x in k):
-            return Track(self.data[k], self.name + str(k), self.log)
-        self.log.append(("r", self.name, k, self.log.cur))
+        sub = self.idx[k]
+        if isinstance(sub, np.ndarray):
+            return Track(self.data[k], self.name, self.log, sub)  # a view: accesses are recorded when it is used
+        self._note("r", sub)
         return self.data[k]
 
     def __setitem__(self, k, v):
-        self.log.append(("w", self.name, k, self.log.cur))
-        self.data[k] = v
+        self._note("w", self.idx[k])
+        self.data[k] = v._val() if isinstance(v, Track) else v
+
+    def __array__(self, dtype=None, copy=None):
+        return np.asarray(self._val(), dtype=dtype)
+
+    def _ip(self, o, f):
+        self._note("r", self.idx)
+        self._note("w", self.idx)
+        self.data = f(self.data, o._val() if isinstance(o, Track) else o)
+        return self
+
+    def __iadd__(s, o):
+        return s._ip(o, lambda a, b: a.__iadd__(b))
+
+    def __isub__(s, o):
+        return s._ip(o, lambda a, b: a.__isub__(b))
+
+    def __imul__(s, o):
+        return s._ip(o, lambda a, b: a.__imul__(b))
+
+    def __itruediv__(s, o):
+        return s._ip(o, lambda a, b: a.__itruediv__(b))
+
+
+def _u(x):
+    return x._val() if isinstance(x, Track) else x
+
+
+for _nm, _f in dict(add=lambda a, b: a + b, sub=lambda a, b: a - b, mul=lambda a, b: a * b, truediv=lambda a, b: a / b, pow=lambda a, b: a ** b).items():
+    setattr(Track, f"__{_nm}__", (lambda f: lambda s, o: f(s._val(), _u(o)))(_f))
+    setattr(Track, f"__r{_nm}__", (lambda f: lambda s, o: f(_u(o), s._val()))(_f))
+Track.__neg__ = lambda s: -s._val()
 
 
 class Log(list):
     cur = None
+
+
+class TrackingNumpy:
+    """the kernel's `np`: arrays it allocates are tracked too (one allocated before the parallel loop is
+    shared between the iterations, one allocated inside an iteration is private to it); every other
+    function sees the plain arrays (the reads are recorded)"""
+
+    ALLOC = ("empty", "zeros", "ones", "empty_like", "zeros_like", "ones_like", "full")
+
+    def __init__(self, real_np, log, made, sym):
+        self._np, self._log, self._made, self._sym = real_np, log, made, sym
+
+    def __getattr__(self, k):
+        f = getattr(self._np, k)
+        if k in self.ALLOC:
+            def alloc(*a, **kw):
+                a = [_u(x) for x in a]
+                if self._sym or k not in ("empty", "empty_like"):
+                    o = f(*a, **kw)
+                else:  # concrete runs: make a use of uninitialised memory visible
+                    o = np.full(np.shape(a[0]) if k == "empty_like" else a[0], np.nan)
+                cur = self._log.cur
+                name = f"out:local{len(self._made)}" + ("" if cur is None else f"@iteration{cur}")
+                self._made.append((name, o))
+                return Track(o, name, self._log)
+            return alloc
+        if callable(f) and not isinstance(f, type):
+            return lambda *a, **kw: f(*[_u(x) for x in a], **{kk: _u(v) for kk, v in kw.items()})
+        return f
 
 
 def body_race(H, case):
@@ -142,71 +205,45 @@ def body_race(H, case):
         sym = H.mode == "sym"
         mk2 = lambda nm, a, b, lo, hi: H.reals2(nm, a, b, lo=lo, hi=hi)
         outs = {}
+
+        def call(f, *args):
+            g = dict(f.__globals__)
+            g["numba"] = fake_numba
+            made = []
+            g["np"] = TrackingNumpy(g["np"], log, made, sym)
+            res = types.FunctionType(f.__code__, g, f.__name__)(*args)
+            return res, made
+
         if case.kernel == "coulomb":
             f = scr.get_A_induced_numba.py_func
             J, ar = mk2("J", n, 2, -2.0, 2.0), H.reals("a", n, lo=0.1, hi=2.0)
             sites = H.array2([[H.real(f"sx{j}", lo=j - 0.2, hi=j + 0.2), H.real(f"sy{j}", lo=-0.2, hi=0.2)] for j in range(n)])
             cent = H.array2([[H.real(f"cx{i}", lo=i + 0.3, hi=i + 0.7), H.real(f"cy{i}", lo=0.8, hi=1.2)] for i in range(n)])
             out = arr.empty((n, 2), dtype=float) if sym else np.full((n, 2), np.nan)
-            args = [Track(J, "J", log), Track(ar, "areas", log), Track(sites, "sites", log), Track(cent, "centers", log), Track(out, "out", log)]
-            g = dict(f.__globals__)
-            g["numba"] = fake_numba
-            types.FunctionType(f.__code__, g, f.__name__)(*args)
-            outs["out"] = out
+            tout = Track(out, "out", log)
+            _, made = call(f, Track(J, "J", log), Track(ar, "areas", log), Track(sites, "sites", log), Track(cent, "centers", log), tout)
+            outs["out"] = tout.data
         elif case.kernel in ("bs_z", "bs_v"):
             f = (em._biot_savart_2d_z if case.kernel == "bs_z" else em._biot_savart_2d_vector).py_func
             ev = H.array2([[H.real(f"ex{i}", lo=-1.0, hi=1.0), H.real(f"ey{i}", lo=-1.0, hi=1.0), H.real(f"ez{i}", lo=0.5, hi=1.5)] for i in range(n)])
             pos = H.array2([[H.real(f"px{k}", lo=-1.0, hi=1.0), H.real(f"py{k}", lo=-1.0, hi=1.0), 0.0] for k in range(n)])
             J, ar = mk2("J", n, 2, -2.0, 2.0), H.reals("a", n, lo=0.1, hi=2.0)
-            g = dict(f.__globals__)
-            g["numba"] = fake_numba
-            made = []
-            real_np = g["np"]
-
-            class NP:
-                def __getattr__(self, k):
-                    if k == "empty":
-                        def empty(shape, dtype=None):
-                            o = real_np.empty(shape, dtype=dtype) if sym else np.full(shape, np.nan)
-                            t = Track(o, "out", log)
-                            made.append(o)
-                            return t
-                        return empty
-                    return getattr(real_np, k)
-
-            g["np"] = NP()
-            res = types.FunctionType(f.__code__, g, f.__name__)(Track(ev, "eval", log), Track(pos, "pos", log), J, Track(ar, "areas", log))
-            outs["out"] = made[0]
+            res, made = call(f, Track(ev, "eval", log), Track(pos, "pos", log), Track(J, "J", log), Track(ar, "areas", log))
+            outs["out"] = _u(res) if isinstance(res, Track) else res
         else:
             for nm in ("euclidean_distance_2d", "sqeuclidean_distance_3d"):
                 f = getattr(D, nm).py_func
                 dim = 2 if nm.endswith("2d") else 3
                 XA, XB = mk2(f"A{dim}", n, dim, -2.0, 2.0), mk2(f"B{dim}", n, dim, -2.0, 2.0)
-                g = dict(f.__globals__)
-                g["numba"] = fake_numba
-                made = []
-                real_np = g["np"]
-
-                class NP:
-                    def __getattr__(self, k):
-                        if k == "empty":
-                            def empty(shape, dtype=None):
-                                o = real_np.empty(shape, dtype=float) if sym else np.full(shape, np.nan)
-                                made.append(o)
-                                return Track(o, "out:" + nm, log)
-                            return empty
-                        return getattr(real_np, k)
-
-                g["np"] = NP()
-                types.FunctionType(f.__code__, g, f.__name__)(Track(XA, "XA", log), Track(XB, "XB", log))
-                outs[nm] = made[0]
+                res, made = call(f, Track(XA, "XA", log), Track(XB, "XB", log))
+                outs[nm] = res.data if isinstance(res, Track) else res
         return log, outs
 
     log, outs = run(rng_order)
     writes, reads = {}, {}
-    for (op, nm, k, it) in log:
-        if nm.startswith("out"):
-            (writes if op == "w" else reads).setdefault(it, set()).add((nm, str(k)))
+    for (op, nm, idx, it) in log:
+        if nm.startswith("out") and "@iteration" not in nm:  # shared between the iterations
+            (writes if op == "w" else reads).setdefault(it, set()).update((nm, i) for i in idx)
     its = sorted(i for i in writes if i is not None)
     H.prove("every outer iteration writes output", its == list(range(case.n)))
     for i in its:
@@ -216,14 +253,13 @@ def body_race(H, case):
             if i != j:
                 H.prove(f"iteration {i} never reads what iteration {j} writes", not (reads.get(i, set()) & writes[j]))
     H.prove("no write to shared inputs", not any(op == "w" and not nm.startswith("out") for (op, nm, k, it) in log))
-    H.prove("nothing is accessed outside the parallel loop after it started", not any(it is None and op == "w" for (op, nm, k, it) in log))
     # schedule independence of the computed terms (unsimplified => same float evaluation order)
     log2, outs2 = run(list(reversed(rng_order)))
     for nm in outs:
         a, b = outs[nm], outs2[nm]
         if H.mode == "sym":
-            same = all(str(x.re) == str(y.re) for x, y in zip(a.data.ravel(), b.data.ravel()))
-            left = [v for v in a.data.ravel() if "uninit!" in str(v.re)]
+            same = all(str(Sc.of(x).re) == str(Sc.of(y).re) for x, y in zip(a.data.ravel(), b.data.ravel()))
+            left = [v for v in a.data.ravel() if "uninit!" in str(Sc.of(v).re)]
             H.prove(f"{nm}: no uninitialised value survives", not left)
         else:
             same = bool(np.array_equal(a, b)) and not np.isnan(a).any()
